@@ -162,6 +162,11 @@ type deleg struct {
 	inner  valid.CacheEr
 	loads  int          // Load calls since the last reset
 	missAt map[int]bool // Load calls (by index) answered with a miss although the entry may be present
+	// re-entry: the Store call (by index) after which reenter runs
+	stores    int
+	reenterAt int
+	reenter   func()
+	inside    bool
 }
 
 // A Load may legitimately miss an entry that was stored before (another goroutine evicted it, or has not stored it
@@ -174,7 +179,20 @@ func (d *deleg) Load(k interface{}) (interface{}, bool) {
 	}
 	return d.inner.Load(k)
 }
-func (d *deleg) Store(k, v interface{}) { d.inner.Store(k, v) }
+
+// A Store makes the entry visible to every other user of the cache at once: the environment event "another caller
+// validates right after the i-th Store became visible, before the storing call goes on" is enumerated as a deviation
+// too (round 12) - sequentially, by making that call from inside Store after the inner cache has the entry.
+func (d *deleg) Store(k, v interface{}) {
+	d.inner.Store(k, v)
+	i := d.stores
+	d.stores++
+	if i == d.reenterAt && d.reenter != nil && !d.inside {
+		d.inside = true
+		d.reenter()
+		d.inside = false
+	}
+}
 
 type missCache struct{}
 
@@ -256,7 +274,7 @@ func run(c *runner.Ctx) {
 	} else if direct {
 		valid.SetStructTypeCache(valid.NewLRU(directCap))
 	} else if !defaultMode {
-		d = &deleg{inner: missCache{}}
+		d = &deleg{inner: missCache{}, reenterAt: -1}
 		valid.SetStructTypeCache(d)
 	}
 	type start struct {
@@ -813,7 +831,7 @@ func spuriousMisses(c *runner.Ctx, d *deleg, all []call, expect []string, depth 
 				return
 			}
 			runOnce := func(miss map[int]bool) (int, bool) {
-				d.inner, d.loads, d.missAt = cf.mk(), 0, miss
+				d.inner, d.loads, d.missAt, d.stores = cf.mk(), 0, miss, 0
 				defer func() { d.missAt = nil }()
 				var trace []string
 				for pos, ci := range seq {
@@ -844,6 +862,45 @@ func spuriousMisses(c *runner.Ctx, d *deleg, all []call, expect []string, depth 
 			}
 			n, ok := runOnce(nil)
 			runs := 1
+			// a second caller right after each Store: the call in progress is made again (same type, same tag), and the
+			// other calls of the menu on the same type; both it and the interrupted call give their fresh-state result
+			nStores := d.stores
+			for sp := 0; ok && sp < nStores; sp++ {
+				for _, ri := range seq {
+					rc := all[ri]
+					bad := ""
+					d.reenterAt = sp
+					d.reenter = func() {
+						var err error
+						pan, msg, _ := runner.Guard(func() { err = rc.run() })
+						got := ""
+						if err != nil {
+							got = err.Error()
+						}
+						if pan {
+							bad = "panic: " + msg
+						} else if got != expect[ri] {
+							bad = got
+						}
+					}
+					_, ok2 := runOnce(nil)
+					d.reenterAt, d.reenter = -1, nil
+					runs++
+					if bad != "" {
+						var names []string
+						for _, ci := range seq {
+							names = append(names, all[ci].String())
+						}
+						c.Violation("second-caller-right-after-a-store-sees-an-unfinished-entry", map[string]interface{}{"config": cf.name, "sequence": strings.Join(names, " ; "), "store_index": sp, "second_call": rc.String(), "expected": expect[ri], "actual": bad})
+						ok = false
+						break
+					}
+					if !ok2 {
+						ok = false
+						break
+					}
+				}
+			}
 			for p := 0; ok && p < n; p++ {
 				if _, ok2 := runOnce(map[int]bool{p: true}); !ok2 {
 					break
@@ -868,7 +925,7 @@ func main() {
 	runner.Main(runner.Config{
 		Property:  "C08",
 		Technique: "explicit enumeration of all call histories up to a depth x cache configurations x start states on the real code vs pure-function model (cross-configuration differential)",
-		Rule: "calls = 6 types (one with rules under the default tag name on every field but under tag a only on some; nested, time.Time fields, a pair of mutually recursive types, two sub-objects of different types in front of ruled fields) x tag names {a,b} (different rules per tag on the same fields; the value violates the a-rules on one field and the b-rules on another) x {tag rules, per-call override of the shared field}; " +
+		Rule: "(round 12: on LRU(1), LRU(2), LRU(512) and sync.Map, every depth-3 sequence also with a second caller - each call of the sequence in turn - made from inside each Store right after the inner cache holds the entry: what a goroutine sees that finds the entry the moment it is published) calls = 6 types (one with rules under the default tag name on every field but under tag a only on some; nested, time.Time fields, a pair of mutually recursive types, two sub-objects of different types in front of ruled fields) x tag names {a,b} (different rules per tag on the same fields; the value violates the a-rules on one field and the b-rules on another) x {tag rules, per-call override of the shared field}; " +
 			"all sequences of length d (3 quick, 4 thorough) from 3 start states (cold, warmed under the other tag / with overrides, warmed then flushed by capacity+1 filler types) on 8 cache configurations switched in-process, plus, for the bounded LRUs of capacity 1,2,3,8, the start states churn-r (r = 1..2*capacity+3 evictions before the sequence, and 1024..1027 for the default-size LRU(512): every position of the LRU's internal map rebuild relative to the next d calls) " +
 			"and on the untouched package default and on the library's own LRU(0) / LRU(1) / LRU(2) handed to SetStructTypeCache directly (separate worker sets, one cache instance per process so sequences chain); and every depth-3 sequence on LRU(1), LRU(2), LRU(512), sync.Map with one (thorough: one or two) of its cache loads answered with a miss although the entry is present (the answer a concurrent eviction produces); three types whose tags hold blanks around the rule separator (every 3-call history plus the first call again on every configuration, reference = the always-miss configuration); one rule-map object edited in place between successive calls, and the history (validate, register a global function for a name the type uses, validate) on every configuration; every call compared with walk(type, tag, override, value); states = (configuration, per-type last tag) ; non-trivial = a type re-validated under the other tag",
 		Assumptions: []string{"walk model internal/walk", "the global cache is replaced through the public SetStructTypeCache only"},
